@@ -41,6 +41,8 @@ pub enum Op {
     SetError(ErrKind),
     DropSender,
     Poll,
+    /// reader polls with a different (non-equivalent) waker, as after moving to another task
+    PollOther,
     Unread(u32),
     DropReader,
 }
@@ -128,7 +130,8 @@ impl Rig for PcRig {
                     35..=41 if sender_alive && !eof_fed => Op::FeedEof,
                     42..=47 if sender_alive && !eof_fed => Op::SetError(*rng.pick(&[ErrKind::Incomplete, ErrKind::EncodingCorrupted, ErrKind::Overflow])),
                     48..=52 if sender_alive => Op::DropSender,
-                    53..=89 if reader_alive => Op::Poll,
+                    53..=81 if reader_alive => Op::Poll,
+                    82..=89 if reader_alive => Op::PollOther,
                     90..=95 if reader_alive => Op::Unread(*rng.pick(&[1u32, 100, 32_768])),
                     96..=99 if reader_alive => Op::DropReader,
                     _ => continue,
@@ -157,8 +160,12 @@ impl Rig for PcRig {
         let mut payload = Some(payload);
         let rc = Arc::new(Count(AtomicU64::new(0)));
         let fc = Arc::new(Count(AtomicU64::new(0)));
+        let rc2 = Arc::new(Count(AtomicU64::new(0)));
         let rw = Waker::from(rc.clone());
+        let rw2 = Waker::from(rc2.clone());
         let fw = Waker::from(fc.clone());
+        // which waker the reader used for its last Pending poll
+        let mut pending_with_other = false;
 
         // reference model
         let mut q: VecDeque<Bytes> = VecDeque::new();
@@ -176,6 +183,7 @@ impl Rig for PcRig {
 
         for (i, op) in sc.ops.iter().enumerate() {
             let r0 = rc.0.load(Ordering::SeqCst);
+            let r0b = rc2.0.load(Ordering::SeqCst);
             let f0 = fc.0.load(Ordering::SeqCst);
             let mut note = String::new();
             let mut must_wake_reader = false;
@@ -247,12 +255,14 @@ impl Rig for PcRig {
                     payload = None;
                     reader_pending = false;
                 }
-                Op::Poll => {
+                Op::Poll | Op::PollOther => {
                     if reader_ended {
                         continue;
                     }
                     if let Some(p) = payload.as_mut() {
-                        let mut cx = Context::from_waker(&rw);
+                        let other = matches!(op, Op::PollOther);
+                        let mut cx = Context::from_waker(if other { &rw2 } else { &rw });
+                        pending_with_other = other;
                         let res = Pin::new(p).poll_next(&mut cx);
                         reader_pending = false;
                         match (&res, q.front()) {
@@ -336,7 +346,8 @@ impl Rig for PcRig {
                 feeder_paused = false;
             }
             if must_wake_reader && payload.is_some() {
-                let r1 = rc.0.load(Ordering::SeqCst);
+                // the waker of the *last* Pending poll is the one that must fire
+                let (r1, r0) = if pending_with_other { (rc2.0.load(Ordering::SeqCst), r0b) } else { (rc.0.load(Ordering::SeqCst), r0) };
                 if r1 == r0 {
                     vs.push(Violation::new(
                         "C07.reader-woken",
@@ -355,6 +366,7 @@ impl Rig for PcRig {
                 Op::SetError(_) => 4,
                 Op::DropSender => 5,
                 Op::Poll => 6,
+                Op::PollOther => 9,
                 Op::Unread(n) => 7 + ((*n as u64) << 8),
                 Op::DropReader => 8,
             };
@@ -364,7 +376,7 @@ impl Rig for PcRig {
                 narr.push(format!("#{} {:?} -> {} | model: {} bytes in {} items, eof={}, err={:?}, reader_wakes={}, feeder_wakes={}", i, op, note, qlen, q.len(), eof, err, rc.0.load(Ordering::SeqCst), fc.0.load(Ordering::SeqCst)));
             }
         }
-        let nontrivial = sc.ops.len() >= 3 && fed_total > 0 && sc.ops.iter().any(|o| matches!(o, Op::Poll));
+        let nontrivial = sc.ops.len() >= 3 && fed_total > 0 && sc.ops.iter().any(|o| matches!(o, Op::Poll | Op::PollOther));
         // abstract state: the first 8 operations
         let mut st: u64 = 0x9E3779B97F4A7C15;
         for op in sc.ops.iter().take(8) {
@@ -375,6 +387,7 @@ impl Rig for PcRig {
                 Op::SetError(k) => 4 + *k as u64 * 64,
                 Op::DropSender => 5,
                 Op::Poll => 6,
+                Op::PollOther => 9,
                 Op::Unread(n) => 32 + *n as u64 % 7,
                 Op::DropReader => 8,
             };
